@@ -565,6 +565,14 @@ func (fv *FuncVer) pureArg(st *State, a *Term, names []pname, i int) []*Term {
 		if sl, ok := types.Unalias(names[i].typ).Underlying().(*types.Slice); ok {
 			key, hs := fv.elemsKey(sl.Elem())
 			arr := Select(fv.heap(st, key, hs), Field(a, 0))
+			// a literal length: the value is exactly its elements
+			if ln := resolve(Field(a, 2)); ln.IsLit && ln.Int.Int64() <= 64 {
+				out := []*Term{fv.ctx.WLit(ln.Int.Int64())}
+				for j := int64(0); j < ln.Int.Int64(); j++ {
+					out = append(out, Select(arr, fv.ctx.WAdd(Field(a, 1), fv.ctx.WLit(j))))
+				}
+				return out
+			}
 			return []*Term{arr, Field(a, 1), Field(a, 2)}
 		}
 	}
